@@ -94,11 +94,11 @@ func runC08(c *Ctx) {
 				continue
 			}
 			for _, in := range b.Instrs {
-				ret, ok := in.(*ssa.Return)
+				ret, ok := core.AsReturn(in)
 				if !ok {
 					continue
 				}
-				for _, l := range core.FlattenPhi(core.ResolveLocalLoad(ret.Results[0])) {
+				for _, l := range core.FlattenPhi(core.ResolveLocalLoad(core.Res(ret, 0))) {
 					if bv, isC := core.ConstBool(l); isC {
 						if bv {
 							okAll = false
@@ -132,11 +132,11 @@ func runC08(c *Ctx) {
 				continue
 			}
 			for _, in := range b.Instrs {
-				ret, ok := in.(*ssa.Return)
+				ret, ok := core.AsReturn(in)
 				if !ok {
 					continue
 				}
-				for _, l := range core.FlattenPhi(core.ResolveCellLoad(core.ResolveLocalLoad(ret.Results[0]))) {
+				for _, l := range core.FlattenPhi(core.ResolveCellLoad(core.ResolveLocalLoad(core.Res(ret, 0)))) {
 					if bv, isC := core.ConstBool(l); isC {
 						if bv {
 							okAll = false
@@ -157,11 +157,11 @@ func runC08(c *Ctx) {
 			"the decision is true only as the negation of the ignore-list lookup for the queried host", "the decision can be true without a negative ignore-list lookup for the queried host")
 		// client flag consulted before a true result
 		mayTrue := func(in ssa.Instruction) bool {
-			ret, ok := in.(*ssa.Return)
+			ret, ok := core.AsReturn(in)
 			if !ok || in.Block() == fn.Recover {
 				return false
 			}
-			bv, isC := core.ConstBool(core.ResolveLocalLoad(ret.Results[0]))
+			bv, isC := core.ConstBool(core.ResolveLocalLoad(core.Res(ret, 0)))
 			return !isC || bv
 		}
 		var g map[core.Edge]bool
@@ -347,11 +347,11 @@ func c08ReadSide(c *Ctx) {
 		return
 	}
 	nonNilEntry := func(in ssa.Instruction) bool {
-		ret, ok := in.(*ssa.Return)
+		ret, ok := core.AsReturn(in)
 		if !ok || len(ret.Results) != 3 {
 			return false
 		}
-		return !core.IsNilConst(core.ResolveCellLoad(core.ResolveLocalLoad(ret.Results[0])))
+		return !core.IsNilConst(core.ResolveCellLoad(core.ResolveLocalLoad(core.Res(ret, 0))))
 	}
 	g1, n1 := core.CondEdges(rn, func(at core.Atom) (bool, bool) {
 		if at.Op == token.ILLEGAL && core.IsCallResult(at.Base, -1, "(*querylog.queryLog).isIgnored") {
